@@ -10,6 +10,7 @@ mod c07;
 mod c08;
 mod c09;
 mod frames;
+mod c03;
 mod c04;
 mod c05;
 mod cpr_ref;
@@ -98,6 +99,7 @@ fn dispatch(id: &str, ctx: &Ctx, rep: &Report) {
     match id {
         "C01" => c01::run(ctx, rep),
         "C02" => c02::run(ctx, rep),
+        "C03" => c03::run(ctx, rep),
         "C04" => c04::run(ctx, rep),
         "C05" => c05::run(ctx, rep),
         "C07" => c07::run(ctx, rep),
@@ -118,6 +120,7 @@ fn dispatch_replay(id: &str, w: &serde_json::Value, rep: &Report) {
     match id {
         "C01" => c01::replay(w, rep),
         "C02" => c02::replay(w, rep),
+        "C03" => c03::replay(w, rep),
         "C04" => c04::replay(w, rep),
         "C05" => c05::replay(w, rep),
         "C07" => c07::replay(w, rep),
